@@ -216,18 +216,23 @@ def h_trainer(e, cfg):
     dt = 1.0
     e.tag(component="trainer:" + kind)
 
+    delayed = kind.endswith("-delayed")
+    kind = kind.replace("-delayed", "")
+
     def build(bs):
-        conn = neural.LinearDense((2,), (2,), dt, synapse=neural.DeltaCurrent.partialconstructor(1.0), batch_size=bs, delay=(2.0 if kind.startswith("da") else None))
+        conn = neural.LinearDense((2,), (2,), dt, synapse=neural.DeltaCurrent.partialconstructor(1.0), batch_size=bs, delay=(2.0 if (kind.startswith("da") or delayed) else None))
+        if delayed:
+            conn.delay = torch.tensor([[0.0, 1.0], [2.0, 1.0]])          # heterogeneous per-synapse delays read through the trainer's delayed branch
         conn.updater = conn.defaultupdater()
         neu = scripted_neuron_class()((2,), dt, bs)
         layer = neural.Serial(conn, neu)
         kw = dict(lr_post=1.0, lr_pre=-0.5, tc_post=20.0, tc_pre=15.0, batch_reduction=torch.sum)
         if kind == "stdp":
-            tr = learn.STDP(**kw)
+            tr = learn.STDP(delayed=delayed, **kw)
         elif kind == "triplet":
-            tr = learn.TripletSTDP(1.0, 0.3, -0.5, 0.2, 20.0, 40.0, 15.0, 30.0, batch_reduction=torch.sum)
+            tr = learn.TripletSTDP(1.0, 0.3, -0.5, 0.2, 20.0, 40.0, 15.0, 30.0, delayed=delayed, batch_reduction=torch.sum)
         elif kind == "mstdp":
-            tr = learn.MSTDP(**kw)
+            tr = learn.MSTDP(delayed=delayed, **kw)
         elif kind == "mstdpet":
             tr = learn.MSTDPET(tc_eligibility=10.0, **kw)
         elif kind == "da-stdp":
@@ -275,6 +280,7 @@ def checks(tier):
            for d in (None, 2.0)]
     lay = [dict(layer=l, syn=s, B=2, T=(3 if th else 2)) for l in ("serial", "biclique", "recurrent") for s in ("delta", "single")]
     trn = [dict(trainer=t, B=2, T=(3 if th else 2)) for t in ("stdp", "triplet", "mstdp", "mstdpet", "da-stdp", "da-stdpd")]
+    trn += [dict(trainer=t + "-delayed", B=B, T=3) for t in ("stdp", "triplet", "mstdp") for B in ((2, 3) if th else (2,))]
     o = {"div_policy": "xr", "query_timeout_ms": 120000, "max_paths": 20000}
     return [Check("neurons", h_neuron, neu, opts=o, timeout_s=900), Check("synapses", h_synapse, syn, opts=o, timeout_s=1800), Check("connections", h_connection, con, opts=o, timeout_s=1800),
             Check("layers", h_layer, lay, opts=o, timeout_s=1800), Check("trainers", h_trainer, trn, opts=o, timeout_s=1800)]
@@ -283,7 +289,7 @@ def checks(tier):
 BOUNDS = {
     "quick": {"batch": 2, "neurons": "8 classes, one step from an arbitrary planted state (adaptation frozen), refrac_lock on/off", "synapses": "4 classes, one step from an arbitrary planted history, "
               "delay 0 / 2dt, in-place and not, histories and delayed reads with a symbolic selector compared", "connections": "4 types x delta/single-exponential, with and without (grid) symbolic delays, T=2",
-              "layers": "Serial / Biclique / RecurrentSerial, T=2", "trainers": "STDP, TripletSTDP, MSTDP, MSTDPET, DelayAdjustedSTDP(D) with batch_reduction=sum, T=2"},
+              "layers": "Serial / Biclique / RecurrentSerial, T=2", "trainers": "STDP, TripletSTDP, MSTDP, MSTDPET, DelayAdjustedSTDP(D) with batch_reduction=sum, T=2; STDP / TripletSTDP / MSTDP with delayed=True on heterogeneous per-synapse delays, T=3"},
     "thorough": {"batch": [2, 3], "T": 3, "all four synapses in connections": True},
 }
 OUTSIDE = ["adaptation batch reduction (documented coupling)", "batch sizes above 3"]
